@@ -8,6 +8,7 @@ import (
 	"fmt"
 	"io"
 	"os"
+	"runtime/debug"
 	"sort"
 	"strings"
 	"sync"
@@ -21,6 +22,7 @@ import (
 	"github.com/regclient/regclient/scheme/reg"
 	"github.com/regclient/regclient/types/descriptor"
 	"github.com/regclient/regclient/types/manifest"
+	"github.com/regclient/regclient/types/platform"
 	"github.com/regclient/regclient/types/ref"
 	"github.com/regclient/regclient/zz_verif/evid"
 	"github.com/regclient/regclient/zz_verif/rcutil"
@@ -58,6 +60,18 @@ type L2Params struct {
 	NRef     int      `json:"nref,omitempty"`
 	Index    bool     `json:"index,omitempty"`
 	Cross    string   `json:"cross,omitempty"` // image-copy: same | from-other | to-other
+	// dimensions the CLIs / library options reach
+	CancelAt      int    `json:"cancel_at,omitempty"`      // the context is cancelled when the k-th request arrives (0 = live context)
+	Cache         bool   `json:"cache,omitempty"`          // reg.WithCache (regctl always, regsync by default)
+	HostChunk     bool   `json:"host_chunk,omitempty"`     // chunk / max given as host settings (blobChunk, blobMax) instead of reg.WithBlobSize
+	BlobLimit     int    `json:"blob_limit,omitempty"`     // reg.WithBlobLimit
+	Sha512        bool   `json:"sha512,omitempty"`         // blob get/head/put addressed by a sha512 digest
+	Platform      bool   `json:"platform,omitempty"`       // manifest get/head with WithManifestPlatform (index -> image: two logical requests)
+	RequireDigest bool   `json:"require_digest,omitempty"` // manifest head WithManifestRequireDigest against a registry whose HEAD carries no digest
+	ByTag         bool   `json:"by_tag,omitempty"`         // referrer list of a tag reference (resolved by a HEAD first)
+	ArtifactType  bool   `json:"artifact_type,omitempty"`  // referrer list filtered by artifactType
+	RepoLimit     int    `json:"repo_limit,omitempty"`
+	Last          string `json:"last,omitempty"` // WithTagLast / WithRepoLast
 }
 
 // (ordered so that rapid's preference for early elements favours the operations with many requests)
@@ -155,12 +169,14 @@ func putManifest(r *rm.Repo, body []byte, mt string) string {
 }
 
 // populate fills repoSrc of a host with the case content.
-func (ct *content) populate(h *rm.Host, p L2Params, op string) {
-	r := h.Repo(repoSrc)
+func (ct *content) populate(h *rm.Host, repo string, p L2Params, op string) {
+	r := h.Repo(repo)
 	for _, b := range [][]byte{ct.cfg, ct.cfg2, ct.layer1, ct.layer2, ct.empty} {
 		r.Blobs[dig(b)] = b
 	}
+	r.Blobs[rm.Digest("sha512", ct.layer1)] = ct.layer1
 	putManifest(r, ct.m1, rm.MTOCIManifest)
+	r.Tags["m1"] = dig(ct.m1)
 	if p.Index {
 		putManifest(r, ct.m2, rm.MTOCIManifest)
 		putManifest(r, ct.idx, rm.MTOCIIndex)
@@ -188,6 +204,7 @@ func (ct *content) populate(h *rm.Host, p L2Params, op string) {
 }
 
 type l2Result struct {
+	panicked string
 	err     error
 	out     string
 	state   string
@@ -233,15 +250,22 @@ func setupL2(c Case, withFaults bool) *l2env {
 			f.TagDelete, f.MountGrant = true, true
 		}
 		if n == upName || w.spec[n].Has == "has" {
-			ct.populate(h, p, c.Op)
+			ct.populate(h, w.repoOn(n, repoSrc), p, c.Op)
+		}
+		f.HeadNoDigest = p.RequireDigest
+		f.ReferrersFilter = p.ArtifactType && p.Feat.ReferrersPage == 0
+		if p.RepoLimit > 0 {
+			f.CatalogPage = 1
 		}
 	}
+	w.blobLen[rm.Digest("sha512", ct.layer1)] = len(ct.layer1)
+	w.blobLen[rm.Digest("sha512", ct.newBlob)] = len(ct.newBlob)
 	// a second registry without mirrors for cross-registry copies
 	oth := w.m.AddHost(othName)
 	oth.Feat.TagListNoRepo404 = true
 	oth.Feat.Referrers = p.Feat.Referrers
 	if c.Op == "image-copy" && p.Cross == "from-other" {
-		ct.populate(oth, p, c.Op)
+		ct.populate(oth, repoSrc, p, c.Op)
 	}
 	if withFaults {
 		w.cfaults = c.ClassFaults
@@ -254,8 +278,14 @@ func setupL2(c Case, withFaults bool) *l2env {
 	}
 	sort.Slice(hosts, func(i, j int) bool { return hosts[i].Name < hosts[j].Name })
 	var ro []reg.Opts
-	if p.Chunk > 0 || p.MaxPut > 0 {
+	if (p.Chunk > 0 || p.MaxPut > 0) && !p.HostChunk {
 		ro = append(ro, reg.WithBlobSize(int64(p.Chunk), int64(p.MaxPut)))
+	}
+	if p.BlobLimit > 0 {
+		ro = append(ro, reg.WithBlobLimit(int64(p.BlobLimit)))
+	}
+	if p.Cache {
+		ro = append(ro, reg.WithCache(5*time.Minute, 500))
 	}
 	rc := rcutil.New(w.m, rcutil.Conf{RetryLimit: c.Limit, DelayInit: dI, DelayMax: dM, Hosts: hosts, RegOpts: ro})
 	e := &l2env{w: w, ct: ct, rc: rc}
@@ -266,7 +296,14 @@ func setupL2(c Case, withFaults bool) *l2env {
 	var mu sync.Mutex
 	seen := map[string]int{}
 	bound := 12*(c.Limit+1) + 3
+	cancelAt := 0
+	if withFaults {
+		cancelAt = p.CancelAt
+	}
 	w.m.OnArrive = func(en *rm.Entry) {
+		if cancelAt > 0 && en.Seq+1 >= cancelAt {
+			e.cancel()
+		}
 		if en.Class != "upload-patch" {
 			return
 		}
@@ -366,16 +403,31 @@ func (e *l2env) state() string {
 }
 
 // runOp executes the operation of the case.
-func (e *l2env) runOp(c Case) l2Result {
+func (e *l2env) runOp(c Case) (res l2Result) {
 	ctx, cancel := context.WithTimeout(e.ctx, 300*time.Second)
 	defer cancel()
 	rc, ct, p := e.rc, e.ct, c.P
-	src := mustRef(upName + "/" + repoSrc + ":v1")
-	tgt := mustRef(upName + "/" + repoTgt + ":v1")
-	var res l2Result
+	src := mustRef(c.cname(upName) + "/" + repoSrc + ":v1")
+	tgt := mustRef(c.cname(upName) + "/" + repoTgt + ":v1")
+	l1desc := desc(rm.MTOCILayer, ct.layer1)
+	if p.Sha512 {
+		l1desc.Digest = digest.Digest(rm.Digest("sha512", ct.layer1))
+	}
+	defer func() {
+		// a crash of the operation (as opposed to one of the harness) gets the operation's name
+		if r := recover(); r != nil {
+			st := string(debug.Stack())
+			if len(st) > 3000 {
+				st = st[:3000]
+			}
+			res.panicked = fmt.Sprintf("%v\n%s", r, st)
+			res.err = fmt.Errorf("panic: %v", r)
+			res.state = e.state()
+		}
+	}()
 	switch c.Op {
 	case "blob-get":
-		br, err := rc.BlobGet(ctx, src, desc(rm.MTOCILayer, ct.layer1))
+		br, err := rc.BlobGet(ctx, src, l1desc)
 		if err == nil {
 			var b []byte
 			b, err = io.ReadAll(br)
@@ -384,7 +436,7 @@ func (e *l2env) runOp(c Case) l2Result {
 		}
 		res.err = err
 	case "blob-head":
-		br, err := rc.BlobHead(ctx, src, desc(rm.MTOCILayer, ct.layer1))
+		br, err := rc.BlobHead(ctx, src, l1desc)
 		if err == nil {
 			res.out = fmt.Sprint(br.GetDescriptor().Size)
 			_ = br.Close()
@@ -392,6 +444,9 @@ func (e *l2env) runOp(c Case) l2Result {
 		res.err = err
 	case "blob-put", "blob-put-chunked":
 		d := desc(rm.MTOCILayer, ct.newBlob)
+		if p.Sha512 {
+			d.Digest = digest.Digest(rm.Digest("sha512", ct.newBlob))
+		}
 		if p.NoDesc {
 			d = descriptor.Descriptor{}
 		}
@@ -413,14 +468,21 @@ func (e *l2env) runOp(c Case) l2Result {
 		}
 		var m manifest.Manifest
 		var err error
+		var mo []regclient.ManifestOpts
+		if p.Platform {
+			mo = append(mo, regclient.WithManifestPlatform(platform.Platform{OS: "linux", Architecture: "amd64"}))
+		}
+		if p.RequireDigest {
+			mo = append(mo, regclient.WithManifestRequireDigest())
+		}
 		if c.Op == "manifest-get" {
-			m, err = rc.ManifestGet(ctx, r)
+			m, err = rc.ManifestGet(ctx, r, mo...)
 			if err == nil {
 				b, _ := m.RawBody()
 				res.out = m.GetDescriptor().Digest.String() + " " + sum(b)
 			}
 		} else {
-			m, err = rc.ManifestHead(ctx, r)
+			m, err = rc.ManifestHead(ctx, r, mo...)
 			if err == nil {
 				res.out = m.GetDescriptor().Digest.String() + " " + m.GetDescriptor().MediaType
 			}
@@ -444,6 +506,9 @@ func (e *l2env) runOp(c Case) l2Result {
 		if p.TagLimit > 0 {
 			opts = append(opts, scheme.WithTagLimit(p.TagLimit))
 		}
+		if p.Last != "" {
+			opts = append(opts, scheme.WithTagLast(p.Last))
+		}
 		tl, err := rc.TagList(ctx, src, opts...)
 		if err == nil {
 			ts, terr := tl.GetTags()
@@ -454,7 +519,15 @@ func (e *l2env) runOp(c Case) l2Result {
 	case "tag-delete":
 		res.err = rc.TagDelete(ctx, src.SetTag("old"))
 	case "referrer-list":
-		rl, err := rc.ReferrerList(ctx, src.SetDigest(dig(ct.m1)))
+		rr := src.SetDigest(dig(ct.m1))
+		if p.ByTag {
+			rr = src.SetTag("m1")
+		}
+		var rlo []scheme.ReferrerOpts
+		if p.ArtifactType {
+			rlo = append(rlo, scheme.WithReferrerMatchOpt(descriptor.MatchOpt{ArtifactType: mtArtifact}))
+		}
+		rl, err := rc.ReferrerList(ctx, rr, rlo...)
 		if err == nil {
 			ds := []string{}
 			for _, d := range rl.Descriptors {
@@ -465,7 +538,14 @@ func (e *l2env) runOp(c Case) l2Result {
 		}
 		res.err = err
 	case "repo-list":
-		rl, err := rc.RepoList(ctx, upName)
+		var rlo []scheme.RepoOpts
+		if p.RepoLimit > 0 {
+			rlo = append(rlo, scheme.WithRepoLimit(p.RepoLimit))
+		}
+		if p.Last != "" {
+			rlo = append(rlo, scheme.WithRepoLast(p.Last))
+		}
+		rl, err := rc.RepoList(ctx, c.cname(upName), rlo...)
 		if err == nil {
 			rs, rerr := rl.GetRepos()
 			err = rerr
@@ -516,12 +596,12 @@ var l2BackoffClasses = map[string]bool{"blob-get": true, "blob-head": true, "man
 
 // l2Groups splits a sequential log into logical read requests: maximal runs of
 // consecutive attempts with the same method, path and query.
-func l2Groups(es []*rm.Entry) []group {
+func (w *world) l2Groups(es []*rm.Entry) []group {
 	var gs []group
 	i := 0
 	for i < len(es) {
 		j := i + 1
-		for j < len(es) && es[j].Method == es[i].Method && es[j].Path == es[i].Path && es[j].RawQuery == es[i].RawQuery {
+		for j < len(es) && es[j].Method == es[i].Method && w.normPath(es[j]) == w.normPath(es[i]) && es[j].RawQuery == es[i].RawQuery {
 			j++
 		}
 		e := es[i]
@@ -543,8 +623,14 @@ func runL2(c Case, ev *evid.Collector) (vs []*evid.Violation, inconclusive strin
 	if ra.timeout {
 		return nil, "watchdog: L2 operation " + c.Op + " exceeded 300 s: " + caseJSON(c)
 	}
+	if ra.panicked != "" {
+		return []*evid.Violation{evid.V("operation-panics-"+c.Op, "%s panicked while the registry answered with faults (or its context ended): %s\n%s", c.Op, ra.panicked, dumpLog(a.w.m.Entries()))}, ""
+	}
 	b := setupL2(c, false)
 	rb := b.runOp(c)
+	if rb.panicked != "" {
+		return []*evid.Violation{evid.V("operation-panics-"+c.Op, "%s panicked in the fault free run: %s", c.Op, rb.panicked)}, ""
+	}
 	if rb.timeout {
 		return nil, "watchdog: L2 operation " + c.Op + " (fault free twin) exceeded 300 s: " + caseJSON(c)
 	}
@@ -579,7 +665,10 @@ func runL2(c Case, ev *evid.Collector) (vs []*evid.Violation, inconclusive strin
 				spoiled = true
 			}
 		case "lack-injected":
-			if e.Host == upName || e.Host == othName || e.Status == 416 {
+			contin := strings.Contains(e.RawQuery, "page=") || strings.Contains(e.RawQuery, "last=")
+			if e.Host == upName || e.Host == othName || e.Status == 416 || contin || c.Up.NoHead {
+				// (also: the continuation of a paged list is bound to the host that served the previous page,
+				// and a registry that takes no HEAD cannot stand in for a mirror that "lacks" the object)
 				// a 416 on a read without Range is "this host lacks it" for the walk, but when every host
 				// lacks the object the caller sees the LAST error, and 416 is not a not-found error
 				spoiled = true
@@ -593,6 +682,7 @@ func runL2(c Case, ev *evid.Collector) (vs []*evid.Violation, inconclusive strin
 	}
 	// ---- evidence
 	classes := []string{"layer:L2", "op:" + c.Op, fmt.Sprintf("limit:%d", c.Limit), fmt.Sprintf("mirrors:%d", len(c.Mirrors))}
+	classes = append(classes, dimClasses(c)...)
 	for h := range hit {
 		classes = append(classes, "hit:"+h)
 	}
@@ -662,7 +752,7 @@ func runL2(c Case, ev *evid.Collector) (vs []*evid.Violation, inconclusive strin
 	add(v6)
 	// ---- (4) + (5) on sequential operations
 	if sequentialOp(c.Op) {
-		lo := logOpts{sequential: true, groups: l2Groups(es),
+		lo := logOpts{sequential: true, groups: w.l2Groups(es),
 			backsOff: func(e *rm.Entry) bool {
 				// requests that are certainly not sent with "ignore errors"
 				return l2BackoffClasses[e.Class] || e.Class == "tags-list" || (e.Class == "referrers" && strings.Contains(e.RawQuery, "page="))
@@ -671,7 +761,7 @@ func runL2(c Case, ev *evid.Collector) (vs []*evid.Violation, inconclusive strin
 		for _, v := range w.analyseLog(es, lo) {
 			add(v)
 		}
-		lo.groups = l2Groups(esB)
+		lo.groups = b.w.l2Groups(esB)
 		for _, v := range b.w.analyseLog(esB, lo) {
 			dup := false
 			for _, x := range vs {
@@ -688,7 +778,13 @@ func runL2(c Case, ev *evid.Collector) (vs []*evid.Violation, inconclusive strin
 	if v6 != nil || spoiled || rb.err != nil {
 		return vs, ""
 	}
-	L := len(c.Mirrors) + lackInj
+	L := len(c.Mirrors) + lackInj + w.noHeadHosts()
+	if c.DupMirror {
+		L++
+	}
+	if c.P.CancelAt > 0 {
+		return vs, "" // an operation whose context is cancelled may fail
+	}
 	if f >= c.Limit || (f+1)*L+f > c.Limit {
 		return vs, ""
 	}
@@ -707,7 +803,7 @@ func runL2(c Case, ev *evid.Collector) (vs []*evid.Violation, inconclusive strin
 			refProbe = true
 			// the same request then walked on to another host that answered 404: the caller only sees that last answer
 			for _, x := range es[i+1:] {
-				if x.Class != "referrers" || x.Path != e.Path || x.RawQuery != e.RawQuery {
+				if x.Class != "referrers" || w.normPath(x) != w.normPath(e) || x.RawQuery != e.RawQuery {
 					break
 				}
 				if x.Host != e.Host && x.Status == 404 {
